@@ -81,6 +81,7 @@ type Node struct {
 	Genesis types.AppState
 	Home    string
 	LastReq *abci.RequestBeginBlock
+	Snap    int // snapshot interval (0 = no snapshot store attached)
 }
 
 // CallResult is the outcome of one guarded ABCI call.
@@ -134,13 +135,21 @@ func (nd *Node) boot() {
 	defer func() { appdb.VerifWrapDB = nil }()
 	st := utils.VerifNewStorage(nd.Home, "", nd.Disk.State, nd.Disk.Events, nd.Disk.Snap)
 	nd.App = minter.NewMinterBlockchain(st, nd.cfg(), nil, nd.W.StakePeriod, nd.W.ExpirePeriod, tmlog.NewNopLogger())
+	if nd.Snap > 0 {
+		nd.attachSnapshots()
+	}
 }
 
 // NewNode builds genesis, boots a node and runs InitChain.
 func NewNode(id string, w *World, n *Names, backend, dir string) (*Node, CallResult) {
+	return NewNodeSnap(id, w, n, backend, dir, 0)
+}
+
+// NewNodeSnap is NewNode with a state-sync snapshot store attached (snap = interval in blocks, 0 = none).
+func NewNodeSnap(id string, w *World, n *Names, backend, dir string, snap int) (*Node, CallResult) {
 	w.defaults()
 	types.CurrentChainID = types.ChainTestnet
-	nd := &Node{ID: id, W: w, N: n, Home: dir}
+	nd := &Node{ID: id, W: w, N: n, Home: dir, Snap: snap}
 	nd.Disk = NewDisk(backend, dir)
 	nd.Genesis = w.BuildGenesis(n)
 	var res CallResult
@@ -240,7 +249,16 @@ func (nd *Node) End(h uint64) (abci.ResponseEndBlock, CallResult) {
 func (nd *Node) Commit() (abci.ResponseCommit, CallResult) {
 	var r abci.ResponseCommit
 	res := guard(func() { r = nd.App.Commit() })
+	nd.waitSnapshots()
 	return r, res
+}
+
+// waitSnapshots lets the background snapshot of the block just committed finish: the harness produces blocks within
+// milliseconds, a real chain within seconds (the node starts one goroutine per snapshot height and they may overtake each other).
+func (nd *Node) waitSnapshots() {
+	if nd.Snap > 0 && nd.App != nil {
+		_ = guard(func() { nd.App.VerifWaitSnapshots() })
+	}
 }
 
 func (nd *Node) Info() (abci.ResponseInfo, CallResult) {
@@ -250,7 +268,11 @@ func (nd *Node) Info() (abci.ResponseInfo, CallResult) {
 }
 
 func (nd *Node) Close() {
+	nd.waitSnapshots()
 	if nd.Disk != nil {
 		nd.Disk.Destroy()
+	}
+	if nd.Snap > 0 && nd.Home != "" {
+		_ = os.RemoveAll(nd.Home)
 	}
 }
